@@ -105,3 +105,92 @@ Example C07_fixed_replay :
   exists s th2, run init (e2_c07_once 1 ++ AStart 2 e2_meta5 :: e2_rs 2 2) = Some s /\
     length (persisted s) = 1 /\ get_thread (threads s) 2 = Some th2 /\ t_resp th2 = Some (ROk None).
 Proof. exact e2_c07_fixed_replay. Qed.
+
+(* ---- cancellation of a request's context (ACancel / AResumeCancelled) ------------------------------------------------ *)
+(* a request that waits for its account locks and whose context is done gives up ([AResumeCancelled t]): it gives its
+   key back and nothing is stored -- a retry with the same key is a fresh request *)
+Theorem C07_cancelled_releases_key : forall s t s', reachable s -> step s (AResumeCancelled t) = Some s' ->
+  exists th, get_thread (threads s) t = Some th /\
+    v_iks s' = (if N.eqb (rq_ik (t_req th)) 0 then v_iks s else remove_N (rq_ik (t_req th)) (v_iks s)) /\
+    persisted s' = persisted s.
+Proof. exact e2_cancelled_releases_key. Qed.
+Print Assumptions C07_cancelled_releases_key.
+
+(* the whole step: the request was parked at "lock.enqueued" with its context done; the three reservation tables lose
+   exactly what its request names; disk and in-flight lists are unchanged; it is finished with [ELockCancelled] and
+   has built no entry *)
+Theorem C07_cancelled_step : forall s t s', reachable s -> step s (AResumeCancelled t) = Some s' ->
+  exists th, get_thread (threads s) t = Some th /\ t_pc th = PEnqueued /\ t_cancelled th = true /\
+    v_iks s' = (if N.eqb (rq_ik (t_req th)) 0 then v_iks s else remove_N (rq_ik (t_req th)) (v_iks s)) /\
+    v_refs s' = (if N.eqb (rq_ref (t_req th)) 0 then v_refs s else remove_N (rq_ref (t_req th)) (v_refs s)) /\
+    v_revs s' = (match rq_kind (t_req th) with KRevert => remove_nat (rq_revert (t_req th)) (v_revs s) | _ => v_revs s end) /\
+    persisted s' = persisted s /\ inflight s' = inflight s /\
+    exists th', get_thread (threads s') t = Some th' /\ t_pc th' = PFinished /\
+                t_resp th' = Some (RErr ELockCancelled) /\ t_entry th' = None /\ t_req th' = t_req th.
+Proof. exact e2_cancelled_releases. Qed.
+Print Assumptions C07_cancelled_step.
+
+(* ... and in a reachable state this is sound: the request held each reservation itself (it is in the table before),
+   nobody holds it afterwards, and no entry on disk or in flight carries the key / reference / revert target *)
+Theorem C07_cancelled_fresh : forall s t s', reachable s -> step s (AResumeCancelled t) = Some s' ->
+  exists th, get_thread (threads s) t = Some th /\
+    persisted s' ++ inflight s' = persisted s ++ inflight s /\
+    (rq_ik (t_req th) <> 0%N ->
+       In (rq_ik (t_req th)) (v_iks s) /\ ~ In (rq_ik (t_req th)) (v_iks s') /\
+       forall x, In x (persisted s' ++ inflight s') -> e_ik x <> rq_ik (t_req th)) /\
+    (rq_ref (t_req th) <> 0%N ->
+       In (rq_ref (t_req th)) (v_refs s) /\ ~ In (rq_ref (t_req th)) (v_refs s') /\
+       forall x, In x (persisted s' ++ inflight s') -> e_ref x <> rq_ref (t_req th)) /\
+    (rq_kind (t_req th) = KRevert ->
+       In (rq_revert (t_req th)) (v_revs s) /\ ~ In (rq_revert (t_req th)) (v_revs s') /\
+       forall x, In x (persisted s' ++ inflight s') -> e_reverts x <> Some (rq_revert (t_req th))).
+Proof. exact e2_cancelled_fresh. Qed.
+Print Assumptions C07_cancelled_fresh.
+
+(* cancelling by itself ([ACancel t]) changes nothing but the flag *)
+Theorem C07_cancel_changes_nothing : forall s t s', step s (ACancel t) = Some s' ->
+  persisted s' = persisted s /\ inflight s' = inflight s /\
+  v_iks s' = v_iks s /\ v_refs s' = v_refs s /\ v_revs s' = v_revs s.
+Proof. exact e2_cancel_changes_nothing. Qed.
+Print Assumptions C07_cancel_changes_nothing.
+
+(* non-vacuity.  Account 1 holds 200; request 1 holds the account locks; request 2 (key 7, reference 9) has reserved
+   both and queues behind it; [AResumeCancelled 2] is not enabled ... *)
+Example C07_cancel_example_prefix :
+  (exists s th2, run init e2_cancel_prefix = Some s /\ get_thread (threads s) 2 = Some th2 /\
+    t_pc th2 = PEnqueued /\ t_granted th2 = false /\ v_queue s = [2] /\ v_iks s = [7%N] /\ v_refs s = [9%N]) /\
+  run init (e2_cancel_prefix ++ [AResumeCancelled 2]) = None.
+Proof. exact e2_cancel_prefix_state. Qed.
+(* ... until its context is cancelled; then it gives up with [ELockCancelled]: queue, key table, reference table empty,
+   nothing written ... *)
+Example C07_cancel_example_gives_up :
+  exists s th2, run init (e2_cancel_prefix ++ [ACancel 2; AResumeCancelled 2]) = Some s /\
+    get_thread (threads s) 2 = Some th2 /\ t_pc th2 = PFinished /\ t_resp th2 = Some (RErr ELockCancelled) /\
+    t_entry th2 = None /\ v_queue s = [] /\ v_iks s = [] /\ v_refs s = [] /\
+    map e_owner (persisted s) = [0] /\ v_pending s = [] /\ v_batch s = None.
+Proof. exact e2_cancel_gives_up. Qed.
+(* ... and a NEW request 3 carrying the same request (key 7, reference 9) is executed as a fresh one: it is the only
+   one to produce an entry under that key / reference *)
+Example C07_cancel_example_retry :
+  exists s th2 th3,
+    run init (e2_cancel_prefix ++ [ACancel 2; AResumeCancelled 2] ++ e2_cancel_retry) = Some s /\
+    get_thread (threads s) 2 = Some th2 /\ get_thread (threads s) 3 = Some th3 /\
+    rq_ik (t_req th2) = 7%N /\ rq_ref (t_req th2) = 9%N /\ t_req th3 = t_req th2 /\
+    t_resp th2 = Some (RErr ELockCancelled) /\ t_resp th3 = Some (ROk (Some 2)) /\
+    map (fun e => (e_owner e, e_ik e, e_ref e)) (persisted s) = [(0, 0%N, 0%N); (1, 0%N, 0%N); (3, 7%N, 9%N)] /\
+    count_where (fun e => N.eqb (e_ik e) 7) (persisted s) = 1 /\
+    count_where (fun e => N.eqb (e_ref e) 9) (persisted s) = 1 /\
+    v_iks s = [] /\ v_refs s = [] /\ v_locks s = [] /\ v_queue s = [].
+Proof. exact e2_cancel_then_retry. Qed.
+(* the other branch of the select: granted meanwhile AND cancelled -- both continuations are enabled; giving up
+   releases the granted account locks as well *)
+Example C07_cancel_example_granted :
+  exists s0 th0 s th2,
+    run init e2_cancel_granted_prefix = Some s0 /\
+    get_thread (threads s0) 2 = Some th0 /\ t_pc th0 = PEnqueued /\ t_granted th0 = true /\ t_cancelled th0 = true /\
+    map (fun h => fst (fst h)) (v_locks s0) = [2] /\
+    run init (e2_cancel_granted_prefix ++ [AResume 2]) <> None /\
+    run init (e2_cancel_granted_prefix ++ [AResumeCancelled 2]) = Some s /\
+    get_thread (threads s) 2 = Some th2 /\ t_resp th2 = Some (RErr ELockCancelled) /\
+    v_locks s = [] /\ v_queue s = [] /\ v_iks s = [] /\ v_refs s = [] /\ map e_owner (persisted s) = [0; 1].
+Proof. exact e2_cancel_granted. Qed.
